@@ -1,6 +1,7 @@
 package props
 
 import (
+	"os"
 	"fmt"
 	"path/filepath"
 	"sort"
@@ -140,6 +141,39 @@ func c07Case(t *core.T, long bool) {
 		}
 		if _, err := wd.Extend(nr); err != nil {
 			t.Fatalf("extend: %v", err)
+		}
+	}
+	// The index set is "used with gaps below the gap limit" only if every one of those addresses
+	// really has history when the restore scans: the random history may have left one unpaid (or a
+	// fork may have dropped its only payment), and then the addresses beyond it are out of reach of
+	// ANY gap-limit scan - a history no wallet that issued its addresses under the gap rule can have.
+	// Such addresses get a payment now.
+	if v, err := sim.ViewOfChain(n.BestChain()); err == nil {
+		paid := map[[32]byte]bool{}
+		for _, o := range v.Outs {
+			if o.HasHash {
+				paid[o.Hash] = true
+			}
+		}
+		var outs []*wire.TxOut
+		for _, h := range k.Hashes {
+			if !paid[h] {
+				outs = append(outs, wire.NewTxOut(int64(1000000+t.R.Intn(1000000)), sim.P2WSH(h)))
+			}
+		}
+		if len(outs) > 0 {
+			cb := sim.Coinbase(n.Height()+1, t.R.Uint64(), append([]*wire.TxOut{wire.NewTxOut(1, sim.P2WSH(wd.StrangerPub()))}, outs...))
+			b := n.NewBlock(n.Tip(), []*wire.MsgTx{cb})
+			if err := n.Extend(b); err != nil {
+				t.Fatalf("extend: %v", err)
+			}
+			wd.Logf("(block %d pays the %d used addresses the history had left without a payment)", b.Height, len(outs))
+			t.Count("cases_topped_up_to_satisfy_the_gap_rule", 1)
+			if os.Getenv("VERIF_C07_DEBUG") != "" {
+				for i, h := range k.Hashes {
+					fmt.Fprintf(os.Stderr, "C07DBG used index %d paid-before-import=%v\n", usedIdx[i], paid[h])
+				}
+			}
 		}
 	}
 	// the restoring instance
